@@ -1,17 +1,17 @@
 INIT Init
 NEXT Next
 CONSTANTS
-  MainProg <- MP5
-  IsrProg <- IP_E
+  MainProg <- MP4
+  IsrProg <- IP_H
   AQDepth = 8
   EQDepth = 2
   SPeriod = 2
-  Discipline = "irq"
+  Discipline = "threads"
   MaxNest = 2
   LoopForever = FALSE
   FastPathChecksAtomicQ = TRUE
   Sleeper = TRUE
-  SRun = FALSE
+  SRun = TRUE
 VIEW MCView
 INVARIANT Safety
 PROPERTY RetSeesCompleted
